@@ -685,6 +685,20 @@ def std_trait(engine, st, ty, tyb, tb, method, args, dest_ty, trait=None):
             s = seq_of(args[0])
             return VecV([copy_value(x) for x in (s.items if isinstance(s, VecV) else s.fields)])
         return args[0]
+    if tb == 'Extend' and method == 'extend':
+        target = deref_all(args[0])
+        it = iterator_method(engine, st, 'into_iter', [args[1]], '')
+        if isinstance(target, VecV):
+            target.items.extend(it.items)
+            return UnitV()
+        if type(target).__name__ == 'AMapV':
+            for x in it.items:
+                if target.is_set:
+                    amap_method(engine, st, 'insert', [args[0], x], None)
+                else:
+                    amap_method(engine, st, 'insert', [args[0], x.fields[0], x.fields[1]], None)
+            return UnitV()
+        raise Inconclusive(f'Extend on {target!r}')
     if tb == 'FromIterator' and method == 'from_iter':
         it = iterator_method(engine, st, 'into_iter', [args[0]], '')
         return VecV(list(it.items))
